@@ -4,7 +4,7 @@
     agrees exactly with central differences for maps of degree <= 2 (error
     h^2*c3 for degree 3), and the adjoint identities <A v, w> = <v, A^T w>.
     Proofs: Thm/Dual.v, Thm/Adjoint.v. *)
-From Dino Require Import Base.Ops Base.Sums Base.Inst Base.Ord Model.Dual Model.Sigma Thm.Dual Thm.Adjoint.
+From Dino Require Import Base.Ops Base.Sums Base.Inst Base.Ord Model.Dual Model.Sigma Model.Combinators Thm.Dual Thm.Adjoint Thm.Combinators.
 From Coq Require Import Qcanon.
 Local Open Scope F_scope.
 
@@ -74,6 +74,22 @@ Section C08.
   Proof. exact (advection_jvp K b w x dw dx n). Qed.
 End C08.
 
+(** Checkpointing / scan nesting: the nested (checkpointed) scan IS the flat scan as a
+    function of (init, xs) for every accepted factorisation (C14), so every quantity computed
+    from its values - difference quotients, hence derivatives of any order - coincides.
+    ([jax.checkpoint] being semantically the identity is part of the trusted base.) *)
+Theorem C08_checkpoint_irrelevant {C X Y R : Type} (f : C -> X -> C * Y) length lengths
+        (D : (C -> list X -> option (C * list Y)) -> (C * list X) -> R)
+        (Dext : forall g1 g2 p, (forall init xs, List.length xs = List.length (snd p) -> g1 init xs = g2 init xs) -> D g1 p = D g2 p)
+        init (xs : list X) :
+  nested_accepts length (Some (List.length xs)) lengths = true ->
+  D (fun i x => nested_checkpoint_scan f i (inr x) length lengths) (init, xs)
+  = D (fun i x => Some (scan f i x)) (init, xs).
+Proof.
+  intros Hacc. apply Dext. intros i x Hlen. cbn in Hlen.
+  apply nested_scan_eq_scan. now rewrite Hlen.
+Qed.
+
 (** Non-vacuity: a concrete degree-2 expression over Qc (x0*x1 - 3*x0), its
     derivative from dual numbers and the exact central difference with h = 1/2. *)
 Example C08_example :
@@ -100,4 +116,5 @@ Print Assumptions C08_product_jacobian_adjoint.
 Print Assumptions C08_linear_jvp_is_self.
 Print Assumptions C08_linear_jvp_vjp.
 Print Assumptions C08_advection_jvp.
+Print Assumptions C08_checkpoint_irrelevant.
 Print Assumptions C08_example.
